@@ -416,5 +416,30 @@ fn main() {
             }
         },
     );
+    // Known finding: Complex<f64> division by a leading coefficient of modulus beyond ~1e154 / below ~1e-154 (unscaled complex
+    // division, see C01): the quotient is NaN although every coefficient ratio is O(1).
+    {
+        ctx.known_cases(
+            "listed inputs: Complex<f64> polynomial division at extreme magnitude",
+            vec![
+                ("extreme-complex polydiv [3e200] / [1e200]".to_string(), Box::new(|| {
+                    let u = Polynomial::new(vec![Cmplx::new(3e200, 0.0)]);
+                    let v = Polynomial::new(vec![Cmplx::new(1e200, 0.0)]);
+                    let (q, _r) = u.polydiv(&v).map_err(|e| format!("Err({})", e))?;
+                    let qc = coeffs_of(&q);
+                    ensure!(qc.len() == 1 && (qc[0].real - 3.0).abs() <= 1e-12 && qc[0].imag == 0.0, "q = {:?} but the quotient is 3", qc);
+                    Ok(())
+                })),
+                ("extreme-complex polydiv [3e-200] / [1e-200]".to_string(), Box::new(|| {
+                    let u = Polynomial::new(vec![Cmplx::new(3e-200, 0.0)]);
+                    let v = Polynomial::new(vec![Cmplx::new(1e-200, 0.0)]);
+                    let (q, _r) = u.polydiv(&v).map_err(|e| format!("Err({})", e))?;
+                    let qc = coeffs_of(&q);
+                    ensure!(qc.len() == 1 && (qc[0].real - 3.0).abs() <= 1e-12 && qc[0].imag == 0.0, "q = {:?} but the quotient is 3", qc);
+                    Ok(())
+                })),
+            ],
+        );
+    }
     std::process::exit(ctx.finish());
 }
